@@ -51,6 +51,15 @@ def run(ctx: Ctx) -> None:
             if len(ms) < 5:
                 continue
             for name in case.diff:
+                if op == "rms_norm" and name == "input":
+                    # the library computes the RMS in float32, and the input gradient of a normalisation is a difference
+                    # of nearly equal terms for small widths: judge it by absolute error against the gradient's natural
+                    # scale |upstream| / rms(x), with the scalar fixed at 1
+                    worst = max(m.bwd_abs1.get(name, 0.0) / max(m.up_max / max(m.in_rms, 1e-30), 1e-30) for m in ms)
+                    if worst > 1e-5:
+                        ctx.violation("C02:rms_norm:input:direction", "input gradient differs from PyTorch's beyond float32 rounding",
+                                      {**key, "wrt": name}, worst)
+                    continue
                 bs = [m.bwd[name] for m in ms]
                 rs = [m.bwd_resid[name] for m in ms]
                 if any(r > tol for r in rs):
@@ -65,7 +74,7 @@ def run(ctx: Ctx) -> None:
                 if any(not rel_close(b, bs_f[0], 1e3 * tol) for b in bs_f):
                     ctx.violation(f"C02:{op}:{name}:varies", "gradient scalar varies with data, upstream gradient or between calls",
                                   {**key, "wrt": name}, bs)
-            if op in ("layer_norm", "rms_norm"):
+            if op == "layer_norm":
                 # the model says the *input* gradient of the normalisations is PyTorch's (scalar 1)
                 b = ms[0].bwd.get("input")
                 if b is not None and not math.isnan(b) and not rel_close(b, 1.0, 1e-5 if op == "rms_norm" else 1e-12):
